@@ -163,6 +163,7 @@ func (f *renameOnCloseFile) Write(p []byte) (int, error) {
 
 func (f *renameOnCloseFile) Close() error {
 	if f.dead || f.lostTemp() {
+		verifEventS("fs.lost", 0, 0, f.tempPath)
 		f.dead = true
 		f.file.Close()
 		return fmt.Errorf("%w: %s", errWriterLostTempFile, f.tempPath)
@@ -212,6 +213,7 @@ func (f *renameOnCloseFile) Abort() error {
 		// Nothing of this write is left under its names (TombstoneFile on the
 		// pointer removed it, or an earlier Abort did); they may belong to a
 		// newer writer now.
+		verifEventS("fs.lost", 1, 0, f.tempPath)
 		f.dead = true
 		f.file.Close()
 		return nil
